@@ -213,10 +213,10 @@ func (x *Exec) checkRange(st *State, r Term, n ast.Node) {
 	}
 	if lo, hi, ok := intRange(r.T); ok {
 		if hi == "" {
-			x.oblige(st, "ovf", "", n, app("<=", lo, r.S))
+			x.oblige(st, "ovf", "", n, arith("<=", lo, r.S))
 			return
 		}
-		x.oblige(st, "ovf", "", n, and(app("<=", lo, r.S), app("<=", r.S, hi)))
+		x.oblige(st, "ovf", "", n, and(arith("<=", lo, r.S), arith("<=", r.S, hi)))
 	}
 }
 
@@ -255,7 +255,7 @@ func (x *Exec) evalBinary(n *ast.BinaryExpr, st *State) Term {
 				x.unsupported(n, "comparison of %s and %s", a.Sort, b.Sort)
 			}
 		}
-		eq := app("=", a.S, b.S)
+		eq := arith("=", a.S, b.S)
 		if a.Sort == "Slice" {
 			o := a
 			if isZeroSlice(a.S) {
@@ -272,21 +272,21 @@ func (x *Exec) evalBinary(n *ast.BinaryExpr, st *State) Term {
 			x.unsupported(n, "ordered comparison of %s", a.Sort)
 		}
 		op := map[token.Token]string{token.LSS: "<", token.LEQ: "<=", token.GTR: ">", token.GEQ: ">="}[n.Op]
-		return Term{S: app(op, a.S, b.S), Sort: "Bool", T: boolT}
+		return Term{S: arith(op, a.S, b.S), Sort: "Bool", T: boolT}
 	case token.ADD:
 		if a.Sort == "Str" {
 			x.ctx.declOnce("strcat", "(declare-fun strcat (Str Str) Str)\n(assert (forall ((a Str) (b Str)) (! (= (strlen (strcat a b)) (+ (strlen a) (strlen b))) :pattern ((strcat a b)))))")
 			return Term{S: app("strcat", a.S, b.S), Sort: "Str", T: rt}
 		}
-		r := Term{S: app("+", a.S, b.S), Sort: "Int", T: rt}
+		r := Term{S: arith("+", a.S, b.S), Sort: "Int", T: rt}
 		x.checkRange(st, r, n)
 		return r
 	case token.SUB:
-		r := Term{S: app("-", a.S, b.S), Sort: "Int", T: rt}
+		r := Term{S: arith("-", a.S, b.S), Sort: "Int", T: rt}
 		x.checkRange(st, r, n)
 		return r
 	case token.MUL:
-		r := Term{S: app("*", a.S, b.S), Sort: "Int", T: rt}
+		r := Term{S: arith("*", a.S, b.S), Sort: "Int", T: rt}
 		x.checkRange(st, r, n)
 		return r
 	case token.QUO:
@@ -683,16 +683,7 @@ func (x *Exec) evalConversion(call *ast.CallExpr, to types.Type, st *State) Term
 	name := "conv!" + sanitize(typeName(from)) + "!to!" + sanitize(typeName(to))
 	x.ctx.declOnce(name, fmt.Sprintf("(declare-fun %s (%s) %s)", name, v.Sort, toS))
 	if v.Sort == "Slice" {
-		// depends on the contents: make it a function of a content snapshot
-		es := x.ctx.sortOf(from.Underlying().(*types.Slice).Elem())
-		name2 := name + "!c"
-		x.ctx.declOnce(name2, fmt.Sprintf("(declare-fun %s ((Array Int %s) Int Int) %s)", name2, es, toS))
-		m := x.elemMem(st, es)
-		r := Term{S: app(name2, app("select", m.S, app("s-arr", v.S)), app("s-off", v.S), app("s-len", v.S)), Sort: toS, T: to}
-		if toS == "Str" {
-			st.assume(app("=", app("strlen", r.S), app("s-len", v.S)))
-		}
-		return x.define(st, "conv", r)
+		return x.convFromSlice(st, v, to)
 	}
 	r := Term{S: app(name, v.S), Sort: toS, T: to}
 	if toS == "Slice" {
@@ -705,6 +696,26 @@ func (x *Exec) evalConversion(call *ast.CallExpr, to types.Type, st *State) Term
 		return rr
 	}
 	return r
+}
+
+// convFromSlice models string(b) / named conversions of a slice: an uninterpreted function of the contents.
+func (x *Exec) convFromSlice(st *State, v Term, to types.Type) Term {
+	toS := x.ctx.sortOf(to)
+	elemT := v.T.Underlying().(*types.Slice).Elem()
+	es := x.ctx.sortOf(elemT)
+	name := "conv!" + sortID(es) + "!to!" + sortID(toS)
+	x.ctx.declOnce(name, fmt.Sprintf("(declare-fun %s ((Array Int %s) Int) %s)", name, es, toS))
+	var content string
+	if vw, ok := x.viewOf(st, v, elemT); ok {
+		content = vw.S
+	} else {
+		x.unsupported(nil, "conversion of a non-ground slice")
+	}
+	r := Term{S: app(name, content, app("s-len", v.S)), Sort: toS, T: to}
+	if toS == "Str" {
+		x.ctx.declOnce(name+"!len", fmt.Sprintf("(assert (forall ((a (Array Int %s)) (n Int)) (! (=> (>= n 0) (= (strlen (%s a n)) n)) :pattern ((%s a n)))))", es, name, name))
+	}
+	return x.define(st, "conv", r)
 }
 
 func (x *Exec) evalBuiltin(call *ast.CallExpr, name string, st *State) []Term {
